@@ -834,7 +834,16 @@ def pinned_descriptions():
                     {"s": "add_inst", "R": ["e-", "GRAIN0"], "P": ["GRAIN-"], "pseudo": [], "alpha": 1.0, "rtype": 221, "idx": -1, "tmin": 10.0, "tmax": -1.0},
                     {"s": "add_inst", "R": ["C+", "GRAIN-"], "P": ["C", "GRAIN0"], "pseudo": [], "alpha": 1.0, "rtype": 220, "idx": -1, "tmin": 10.0, "tmax": -1.0},
                     dict(r8), {"s": "to_code", "solver": "cvode", "method": "sparse", "device": "cpu"}]}
-    return [p1, p2, p3, p4, p5, p6, p7, p8]
+    # host-code patch files generated between two renderings of a network whose short element list reads
+    # later input differently from a longer one ("He" is H + e under e/H/C/O): the patch generator must not
+    # leave anything in the network that changes how later input is parsed
+    r9 = {"s": "render", "solver": "cvode", "method": "dense", "device": "cpu", "pattern": False}
+    p9 = {"id": "pinned-patch-then-edit-0", "family": "pinned-patch-then-edit", "entry": "api", "name": "simproj",
+          "files": {"net.kida": "\n".join(kida) + "\n"}, "net": dict(MINIMAL),
+          "steps": [{"s": "new"}, {"s": "add_file", "file": "net.kida", "fmt": "kida"}, dict(r9), {"s": "enzo_patch", "device": "cpu"},
+                    {"s": "add_str", "fmt": "kida", "line": "He         CR                     He+        e-                                            5.000e-01  0.000e+00  0.000e+00 2.00e+00 0.00e+00 logn  1     10  41000  1    17 1  1\n"},
+                    dict(r9)]}
+    return [p1, p2, p3, p4, p5, p6, p7, p8, p9]
 
 
 def build_library(seed, tier):
